@@ -46,6 +46,7 @@ pub struct DirectedStats {
 
 const RETAIN_BUDGET: usize = 1 << 30;
 const RETAIN_SMALL: usize = 256 << 10;
+const LEAF_BUDGET: usize = 40_000_000;
 
 /// rough heap footprint of a held case (frame, trace leaves with their path strings, decisions)
 fn case_cost(e: &Encoded) -> usize {
@@ -148,6 +149,7 @@ pub fn directed(enc: &dyn Fn(&[u8], &BTreeMap<String, u32>) -> Result<Encoded, E
         }
     }
     let mut retained: usize = out.iter().map(|c| case_cost(&c.enc)).sum();
+    let mut leaves_total: usize = 0;
     let mut i = 0;
     while i < work.len() {
         if stats.runs >= max_runs {
@@ -161,6 +163,13 @@ pub fn directed(enc: &dyn Fn(&[u8], &BTreeMap<String, u32>) -> Result<Encoded, E
         stats.runs += 1;
         match enc(seed_tape, &forced) {
             Ok(enc) => {
+                // work bound of the enumeration itself: encodings with tens of thousands of traced leaves (every array at
+                // its cap) cost tens of milliseconds each; past LEAF_BUDGET leaves in total the enumeration is cut
+                leaves_total += enc.trace.len();
+                if leaves_total > LEAF_BUDGET {
+                    stats.truncated = true;
+                    break;
+                }
                 push_sites(&enc, &forced, &mut seen_sites, &mut work);
                 // the cases are held until the caller has used them: a context that holds an outer array at its cap
                 // makes every case below it megabytes of trace, and two thousand of those are the worker's whole
